@@ -77,6 +77,8 @@ var (
 	c33OBS   = common.HexToAddress("0x0b50000000000000000000000000000000000b02") // observer: logs what it sees of everybody else
 	c33FAC   = common.HexToAddress("0xfa00000000000000000000000000000000000f03") // CREATE2 factory of K
 	c33FACSD = common.HexToAddress("0xfb00000000000000000000000000000000000f04") // creates and self-destructs M in one transaction
+	c33FACSD2 = common.HexToAddress("0xfc00000000000000000000000000000000000f15") // CREATE2 of M2 whose constructor self-destructs to X
+	c33FACSD3 = common.HexToAddress("0xfd00000000000000000000000000000000000f16") // the same onto M3, an address that holds a balance in genesis
 	c33D     = common.HexToAddress("0xd000000000000000000000000000000000000d05") // self-destructs to X when called with data
 	c33DLG   = common.HexToAddress("0xd100000000000000000000000000000000000d06") // delegation target of E
 	c33REV   = common.HexToAddress("0x7e00000000000000000000000000000000000e07") // increments CTR, then reverts
@@ -95,8 +97,11 @@ type c33World struct {
 	keys   []*ecdsa.PrivateKey // A, B, C, P, E
 	addrs  []common.Address
 	k      common.Address // contract created by FAC
+	m, m2  common.Address // absent addresses that FACSD / FACSD2 create and destroy in one transaction
+	m3     common.Address // the same for FACSD3, but holding a balance in genesis
 	txs    []c33TxSpec
 	beacon common.Hash
+	raceAlphabet int // the first raceAlphabet entries take part in the race step
 	prefix []*types.Block // empty Amsterdam ancestors 1..c33Ancestors; the explored blocks are their children
 }
 
@@ -168,6 +173,16 @@ func c33NewWorld() *c33World {
 	facsd := program.New().Mstore(initM, 0).Push(2).Push(len(initM)).Push(0).Push(5).Op(vm.CREATE2).
 		Push(0).Push(0).Push(0).Push(0).Push(0).Op(vm.DUP6, vm.GAS, vm.CALL, vm.POP, vm.POP, vm.STOP).Bytes()
 
+	// addresses that are created and destroyed within one transaction: M (FACSD: CREATE2 with value, then a call
+	// that self-destructs), M2 / M3 (FACSD2 / FACSD3: the constructor self-destructs). M and M2 do not exist before
+	// the block and can be funded by an earlier transaction of the block; M3 holds a balance in genesis.
+	initSD := program.New().Selfdestruct(c33X).Bytes()
+	sdFactory := func(salt int) []byte {
+		return program.New().Mstore(initSD, 0).Push(salt).Push(len(initSD)).Push(0).Push(0).Op(vm.CREATE2, vm.POP, vm.STOP).Bytes()
+	}
+	w.m = crypto.CreateAddress2(c33FACSD, common.BigToHash(big.NewInt(2)), crypto.Keccak256(initM))
+	w.m2 = crypto.CreateAddress2(c33FACSD2, common.BigToHash(big.NewInt(3)), crypto.Keccak256(initSD))
+	w.m3 = crypto.CreateAddress2(c33FACSD3, common.BigToHash(big.NewInt(4)), crypto.Keccak256(initSD))
 	d := c33Branch([]byte{byte(vm.STOP)}, program.New().Selfdestruct(c33X).Bytes())
 
 	rev := program.New().Push(1).Push(0).Op(vm.MSTORE).Call(nil, c33CTR, 0, 0, 32, 0, 0).Op(vm.POP).
@@ -220,6 +235,9 @@ func c33NewWorld() *c33World {
 		c33OBS:        {Code: obs.Bytes(), Balance: common.Big0, Nonce: 1},
 		c33FAC:        {Code: fac, Balance: common.Big0, Nonce: 1},
 		c33FACSD:      {Code: facsd, Balance: big.NewInt(100), Nonce: 1},
+		c33FACSD2:     {Code: sdFactory(3), Balance: common.Big0, Nonce: 1},
+		c33FACSD3:     {Code: sdFactory(4), Balance: common.Big0, Nonce: 1},
+		w.m3:          {Balance: big.NewInt(7)},
 		c33D:          {Code: d, Balance: big.NewInt(1000), Nonce: 1, Storage: map[common.Hash]common.Hash{{}: common.BigToHash(big.NewInt(1))}},
 		c33DLG:        {Code: c33Adder(), Balance: common.Big0, Nonce: 1},
 		c33REV:        {Code: rev, Balance: common.Big0, Nonce: 1},
@@ -315,7 +333,15 @@ func c33NewWorld() *c33World {
 		redelegate("CLEAR_F_C", c33C, 4, common.Address{}),
 		redelegate("REDELEG_F_TWICE_A", c33A, 5, c33DLG2, c33DLG3),
 		call("CALLF_A", c33A, w.addrs[c33F], 0, c33Word(1)),
+		// accounts that end the block EMPTY: an address that does not exist before the block is funded by one
+		// transaction and created-and-destroyed by a later one (M via FACSD_C above, M2 via FACSD2_C); controls: the
+		// same onto an address that holds a balance in genesis (FACSD3_B), fresh address funded and left funded (T_A_X)
+		call("FUND_M_A", c33A, w.m, 9, nil),
+		call("FUND_M2_B", c33B, w.m2, 11, nil),
+		call("FACSD2_C", c33C, c33FACSD2, 0, nil),
+		call("FACSD3_B", c33B, c33FACSD3, 0, nil),
 	}
+	w.raceAlphabet = len(w.txs) - 4 // the race step keeps to the entries before these
 	// Code blobs that come into existence inside the explored blocks must not already exist in the
 	// parent state: the code database is keyed by hash, so an identical blob in genesis would make a
 	// reader that ignores the block's own code changes look correct.
@@ -1352,6 +1378,19 @@ func TestVerif_C33(t *testing.T) {
 				if err := w.observeBH(r, b); err != nil {
 					r.HarnessError(fmt.Sprintf("c33: %v: %v", b.names, err))
 				}
+				// accounts that end the block empty although the access list carries balance changes for them
+				for _, a := range c33Decode(b.balEnc) {
+					if n := len(a.Balances); n > 0 && a.Balances[n-1].Balance.IsZero() && len(a.Codes) == 0 && len(a.Nonces) == 0 {
+						switch a.Address {
+						case w.m, w.m2:
+							if n >= 2 {
+								r.Outcome("observed:absent-address-funded-then-emptied-in-a-later-tx")
+							}
+						case w.m3:
+							r.Outcome("observed:existing-balance-only-account-emptied")
+						}
+					}
+				}
 				// how the pre-delegated authority's code changes in this block (none / one / several entries)
 				for _, a := range c33Decode(b.balEnc) {
 					if a.Address == w.addrs[c33F] && len(a.Codes) > 0 {
@@ -1531,14 +1570,14 @@ func TestVerif_C33_race(t *testing.T) {
 		procs := []int{4, 16}
 		r.Rule("every ordered selection of 2 transactions of the full alphabet (incl. the BLOCKHASH units of three senders) and every ordered selection of 3 transactions calling one and the same account, on top of 7 empty ancestors; each block executed reps times (blocks whose transactions all call the same account: repsDense times) by the access-list-driven processor per GOMAXPROCS value, " +
 			"result digest (gas, state root, receipt root, requests hash, rebuilt access list) compared with sequential execution, ValidateState must accept; the step runs under the Go race detector")
-		r.Bound("alphabet", len(w.txs))
+		r.Bound("alphabet", w.raceAlphabet)
 		r.Bound("repetitions_per_gomaxprocs", reps)
 		r.Bound("repetitions_per_gomaxprocs_same_target_blocks", repsDense)
 		r.Bound("gomaxprocs", procs)
 		r.Assume("free-running goroutines: the race detector observes the synchronisation actually performed, it does not enumerate schedules")
 
 		var all []int
-		for i := range w.txs {
+		for i := range w.txs[:w.raceAlphabet] {
 			all = append(all, i)
 		}
 		sels := c33Selections(all, 2)
